@@ -31,7 +31,7 @@ func (s c03Shape) String() string {
 	return s.Context + "[" + strings.Join(parts, " ") + "]"
 }
 
-var c03Bodies = []string{"empty", "cmd", "break", "cmdbreakcmd", "cmdend", "ifbreak", "labelcmd"}
+var c03Bodies = []string{"empty", "cmd", "break", "cmdbreakcmd", "cmdend", "ifbreak", "labelcmd", "label"}
 
 func enumSwitchShapes(m int, bodies []string) [][]swEntry {
 	var res [][]swEntry
@@ -80,6 +80,9 @@ func c03Case(entries []swEntry, context string) *Case {
 			c.Body = []Stmt{&If{Conds: []*Expr{LeafFlag(atoms.New(ClsIdent, "flag", ""))}, Bodies: [][]Stmt{{&Break{}}}}, newCmd()}
 		case "labelcmd":
 			c.Body = []Stmt{&Label{Name: atoms.New(ClsUserName, "lbl", "names")}, newCmd()}
+		case "label":
+			// a body that is only a label is still a body: nothing is shared
+			c.Body = []Stmt{&Label{Name: atoms.New(ClsUserName, "lbl", "names")}}
 		case "iflabelcmd":
 			c.Body = []Stmt{&If{Conds: []*Expr{LeafFlag(atoms.New(ClsIdent, "flag", ""))}, Bodies: [][]Stmt{{newCmd()}}}, &Label{Name: atoms.New(ClsUserName, "lbl", "names")}, newCmd()}
 		}
@@ -131,6 +134,50 @@ func c03Case(entries []swEntry, context string) *Case {
 			}
 		}
 		return v
+	}
+	return cs
+}
+
+// c03ConstCase: case values written with constants, also in the second and
+// third token of a multi-token value; the output must equal that of the
+// switch with the values written out, for all names and numbers.
+func c03ConstCase() *Case {
+	atoms := &AtomTable{Coded: true}
+	ph := func(a *Atom) string { return a.Placeholder() }
+	s := atoms.New(ClsIdent, "script", "names")
+	v := atoms.New(ClsIdent, "var", "consts") // the operand is itself a use site: keep it distinct from the constants
+	k1, k2 := atoms.New(ClsIdent, "const", "consts"), atoms.New(ClsIdent, "const", "consts")
+	n1, n2, n3 := atoms.New(ClsNum, "cv", ""), atoms.New(ClsNum, "cv", ""), atoms.New(ClsNum, "case", "")
+	c1, c2, c3, c4 := atoms.New(ClsPlainCmd, "cmd", ""), atoms.New(ClsPlainCmd, "cmd", ""), atoms.New(ClsPlainCmd, "cmd", ""), atoms.New(ClsPlainCmd, "cmd", "")
+	body := func(a, b string) string {
+		return "script " + ph(s) + " {\nswitch (var(" + ph(v) + ")) {\ncase " + a + ":\n" + ph(c1) + "\ncase " + ph(n3) + " + " + b + ":\n" + ph(c2) + "\ncase " + ph(n3) + " + " + a + " + " + b + ":\ncase " + b + ":\n" + ph(c3) + "\ndefault:\n" + ph(c4) + "\n}\n}"
+	}
+	with := "const " + ph(k1) + " = " + ph(n1) + "\nconst " + ph(k2) + " = " + ph(n2) + "\n" + body(ph(k1), ph(k2))
+	written := body(ph(n1), ph(n2))
+	prog := &Program{Atoms: atoms, Tops: []interface{}{&TopRaw{Text: with}}}
+	ref := &Program{Atoms: atoms, Tops: []interface{}{&TopRaw{Text: written}}}
+	variants := []Variant{{Name: "opt", Opt: CompileOpts{Optimize: true}}, {Name: "noopt", Opt: CompileOpts{}},
+		{Name: "opt-written", Opt: CompileOpts{Optimize: true}, Prog: ref}, {Name: "noopt-written", Opt: CompileOpts{}, Prog: ref}}
+	cs := &Case{Name: "c03/const-case-values", Prog: prog, Variants: variants, NonTrivial: true, Shape: c03Shape{Context: "const-case-values"}, MaxPaths: 64}
+	cs.Setup = func(x *OracleCtx) {
+		if !x.Replay {
+			x.C.Assume(fmt.Sprintf("(distinct %s %s)", n1.IntT, n2.IntT))
+		}
+	}
+	cs.Oracle = func(x *OracleCtx) *Violation {
+		for _, vn := range []string{"opt", "noopt"} {
+			a, b := x.Res[vn], x.Res[vn+"-written"]
+			if a.Err.Panic != "" || a.Err.IsErr != b.Err.IsErr {
+				return &Violation{Sub: "switch-const", Msg: fmt.Sprintf("variant %s: with constants error=%v %s%s, with the values written out error=%v", vn, a.Err.IsErr, interp.ToString(a.Err.Msg), a.Err.Panic, b.Err.IsErr)}
+			}
+			if a.Err.IsErr {
+				continue
+			}
+			if v := expectLines(x, "switch-const", "variant "+vn+": switch with constant case values vs the same switch with the values written out", outputLines(a.Out, false), outputLines(b.Out, false)); v != nil {
+				return v
+			}
+		}
+		return nil
 	}
 	return cs
 }
@@ -228,6 +275,20 @@ func RunC03(env *Env, rep *Report) {
 			}
 		}
 	}
+	// label-only bodies next to empty and non-empty ones
+	for _, sh := range enumSwitchShapes(3, []string{"label", "cmd", "empty"}) {
+		has := false
+		for _, e := range sh {
+			if e.Body == "label" {
+				has = true
+			}
+		}
+		if has {
+			cases = append(cases, c03Case(sh, "first"))
+		}
+	}
+	// case values given through constants (also in a later token of the value)
+	cases = append(cases, c03ConstCase())
 	// long tails of body-less cases after a default body (chunk id gaps)
 	for _, ctx := range contexts {
 		for _, first := range []string{"ifbreak", "cmd", "iflabelcmd"} {
@@ -243,7 +304,7 @@ func RunC03(env *Env, rep *Report) {
 	rep.Technique = "symbolic execution of the real switch parser and emitter (go/ssa) + SMT-discharged bisimulation against the reference switch semantics"
 	rep.Explanation = "Bounded symbolic verification, not a proof. Every case list up to the stated length (each entry case or default - at most one default -, with every body kind of the bound) in every listed context is compiled by symbolic execution of the real code with symbolic names and symbolic case constants (pairwise distinct integers); the emitted switch/case/goto code is shown bisimilar to the reference (matching case's body; body-less entries share the next body; trailing body-less entries select nothing; default iff no case matches; no fall-through; break leaves the switch) for every value of the switched var and every flag state, by SMT queries; loop contexts cover re-entry."
 	rep.Bounds = map[string]interface{}{"max_case_list_length": maxLen, "bodies": bodies, "contexts": contexts, "cases": len(cases)}
-	rep.Outside = []string{"longer case lists", "bodies other than the listed kinds", "case values that are not plain numbers", "switch on autovar commands (C11)"}
+	rep.Outside = []string{"longer case lists", "bodies other than the listed kinds", "case values other than plain numbers and the constant forms of the const-case-values program", "switch on autovar commands (C11)"}
 	rep.Assumptions = []string{"distinct case spellings denote distinct values (the parser only rejects textual duplicates)", "assembly semantics of DESIGN.md §4.1: 'switch V' + 'case c, L' jumps to L iff var V equals c"}
 	rep.Functions = []string{"parseSwitchStatement", "parseSwitchBlockStatement", "createSwitchStatementChunks", "switchBranch", "breakContext", "emitScriptStatement", "renderChunks", "optimizeChunkOrder"}
 	rep.Match = matchKnownC03
